@@ -130,3 +130,38 @@ Example ex_paragraph : exists b e ta,
          (XElem (mkName el_mark s_p) (rp_attrs ex_p) (render_content (rp_groups ex_p) (rp_wl ex_p))) =
   Ok (mkItem 1500000000 2480000000 (Some [114]%N) (Some [98]%N) ta (lines_of (flat_map group_toks (rp_groups ex_p)))).
 Proof. do 3 eexists. repeat split; vm_compute; reflexivity. Qed.
+
+(* ---- second audit (i)4: clock time with frames and Go's int64 ---- *)
+(* the frames term is below 2^49 + 1 ns under the theorem's hypotheses, so a clock part of at most max_int64 - 2^49 - 1 keeps
+   the sum inside int64 (Go adds the two with wrap-around) *)
+Lemma denotes_bounds r num den : 0 < den -> 0 <= num -> num < 2 ^ 49 * den -> denotes_instant r num den -> 0 <= r <= 2 ^ 49.
+Proof.
+  intros Hd Hn Hb [_ H]. split.
+  - destruct (Z_lt_le_dec r 0) as [Hneg|]; [|assumption]. exfalso.
+    assert (r * den <= - den) by nia. lia.
+  - destruct (Z_le_gt_dec r (2 ^ 49)) as [|Hbig]; [assumption|]. exfalso.
+    assert ((2 ^ 49 + 1) * den <= r * den) by nia. lia.
+Qed.
+Theorem clock_frames_int64 hs ms ss fds fr tr : digits hs -> digits ms -> digits ss -> digits fds ->
+  hs <> [] -> ms <> [] -> ss <> [] -> fds <> [] ->
+  dval hs <= max_int64 -> dval ms <= max_int64 -> dval ss <= max_int64 ->
+  0 <= dval fds < 2 ^ 53 -> 0 < fr < 2 ^ 53 -> dval fds * second_ns < 2 ^ 49 * fr ->
+  hms_ns hs ms ss <= max_int64 - 2 ^ 49 ->
+  exists r, ttml_time (clock_frames_expr hs ms ss fds) fr tr = Some (hms_ns hs ms ss + r) /\
+            denotes_instant r (dval fds * second_ns) fr /\ 0 <= hms_ns hs ms ss + r <= max_int64.
+Proof.
+  intros Dh Dm Ds Df Nh Nm Ns Nf Mh Mm Mss Hf Hfr Hb Hmax.
+  destruct (clock_frames_denotes hs ms ss fds fr tr Dh Dm Ds Df Nh Nm Ns Nf Mh Mm Mss Hf Hfr Hb) as (r & H1 & H2).
+  exists r. split; [exact H1|]. split; [exact H2|].
+  assert (Hr : 0 <= r <= 2 ^ 49) by (apply (denotes_bounds r (dval fds * second_ns) fr); [lia | unfold second_ns; lia | exact Hb | exact H2]).
+  assert (0 <= hms_ns hs ms ss).
+  { unfold hms_ns, hour_ns, minute_ns, second_ns. pose proof (dval_nonneg hs). pose proof (dval_nonneg ms). pose proof (dval_nonneg ss). lia. }
+  lia.
+Qed.
+(* boundary: "2562047:47:16:24" at 25 fps means 9223372036960000000 ns, beyond int64 (Go wraps to -9223372036749551616,
+   observed); the clock part 9223372036000000000 exceeds max_int64 - 2^49 *)
+Example clock_frames_int64_boundary :
+  ttml_time (clock_frames_expr s_2562047 [52;55]%N [49;54]%N [50;52]%N) 25 0 = Some 9223372036960000000 /\
+  max_int64 < 9223372036960000000 /\ max_int64 - 2 ^ 49 < hms_ns s_2562047 [52;55]%N [49;54]%N.
+Proof. repeat split; side. Qed.
+Print Assumptions clock_frames_int64.
